@@ -323,7 +323,10 @@ TailAdvance(t) ==
 (* although the run context is alive).                                     *)
 (***************************************************************************)
 WorkerStep(id, o) ==
-  /\ phase \in {"running", "stopping"}
+  \* also after the run context was cancelled: an availability implementation need not answer a
+  \* cancelled context with context.Canceled (the light availability answers ErrNotAvailable when
+  \* its getter returned nothing), and then the worker records the outcome and goes on
+  /\ phase \in {"running", "stopping", "cancelled"}
   /\ id \in DOMAIN jobs /\ jobs[id].st = "sampling"
   /\ LET j == jobs[id]
          h == NextHeightOf(j)
